@@ -38,7 +38,7 @@ H = "esutil.htm.htm."
 
 # rules that keep their verdict however the code is laid out (decided by term equality, effect analysis or dominance over
 # resolved calls); every other rule of this check is a template rule (vcheck.core.Check.obt)
-SEMANTIC = ('R12.2', 'R12.7', 'R12.8', 'R12.9')
+SEMANTIC = ('R12.1', 'R12.2', 'R12.4::match::every-emitted-group-is-ordered', 'R12.4::PAIR_INFO_ORDERING', 'R12.7', 'R12.8', 'R12.9')
 
 
 def run(chk):
@@ -64,6 +64,7 @@ def run(chk):
     gcirc_rule(chk, fs["gcirc"], decls)
     python_rules(chk, repo, m)
     quadtree_rule(chk)
+    fill_children_rules(chk)
 
 
 # ---------------------------------------------------------------------------
@@ -395,10 +396,23 @@ class MatchFn:
         if pl is None:
             return
         name = pl[1]
-        sorts = [n for n in cfg.nodes if isinstance(n.c, dict) and any(x.get("kind") == "CallExpr" and callee_name(x) == "sort" for x in walk(n.c))
-                 and ("%s.begin()" % name) in render(n.c) and ("%s.end()" % name) in render(n.c)]
-        ok = len(sorts) == 1 and "PAIR_INFO_ORDERING" in render(sorts[0].c)
-        chk.ob("R12.4", "match::sorted-by-ordering-functor", ok, self.w(sorts[0]) if sorts else self.where, "the whole pair list is sorted with PAIR_INFO_ORDERING")
+        # calls that put the list (or its leading part) in order, and calls that only partition it
+        ORDERING = ("sort", "stable_sort", "partial_sort")
+        PARTITION = ("nth_element", "partition", "stable_partition")
+        ordcalls = []
+        partcalls = []
+        for n in cfg.nodes:
+            if not isinstance(n.c, dict):
+                continue
+            for x in walk(n.c):
+                if x.get("kind") == "CallExpr" and callee_name(x) in ORDERING + PARTITION and ("%s.begin()" % name) in render(x) and ("%s.end()" % name) in render(x):
+                    (ordcalls if callee_name(x) in ORDERING else partcalls).append((n, x))
+        sorts = [n for n, x in ordcalls if callee_name(x) in ("sort", "stable_sort") and len(cfront.call_args(x)) >= 2
+                 and render(cfront.call_args(x)[0]).endswith("%s.begin())" % name) and render(cfront.call_args(x)[1]).endswith("%s.end())" % name)]
+        ok = len(ordcalls) >= 1 and all("PAIR_INFO_ORDERING" in render(x) for n, x in ordcalls)
+        chk.ob("R12.4", "match::sorted-by-ordering-functor", ok if ordcalls else None, self.w(ordcalls[0][0]) if ordcalls else self.where,
+               "the pair list is put in order with PAIR_INFO_ORDERING (%d ordering call(s))" % len(ordcalls))
+        self._ordcalls, self._partcalls = ordcalls, partcalls
         r, L = csymx.lower_function(cmp_decl)
         ret = csymx.merged_return(r)
         ps = cfront.params_of(cmp_decl)
@@ -429,7 +443,25 @@ class MatchFn:
             ei = [render(r) for d, r in self.defs_at(em[0], ev) if d.label != "inc"]
             ok = ei == ["0"] and bool(sorts) and view.dominates(sorts[0], em[0])
             self.emit_loop, self.emit_var, self.pairs = em[0], ev, name
-        chk.ob("R12.4", "match::emit-first-nkeep-in-sorted-order", bool(ok), self.w(em[0]) if em else self.where, "the first nkeep entries of the sorted list are emitted in order")
+        chk.ob("R12.4", "match::emit-first-nkeep-in-sorted-order", bool(ok) if (em and sorts) else None, self.w(em[0]) if em else self.where, "the first nkeep entries of the sorted list are emitted in order")
+        # every path from the collection of the pairs to their emission passes a call that ORDERS the entries emitted: a full
+        # sort / stable_sort of [begin, end), or partial_sort(begin, begin + k, end) with k the kept count.  A partition
+        # (nth_element) selects the k closest but leaves them in unspecified order, so a path ordered only by it is a violation.
+        if em:
+            good = []
+            for n, x in getattr(self, "_ordcalls", []):
+                a = [render(z) for z in cfront.call_args(x)]
+                if callee_name(x) in ("sort", "stable_sort") and len(a) >= 2 and a[0].endswith("%s.begin())" % name) and a[1].endswith("%s.end())" % name):
+                    good.append(n)
+                elif callee_name(x) == "partial_sort" and len(a) >= 3 and a[0].endswith("%s.begin())" % name) and a[2].endswith("%s.end())" % name) \
+                        and ("%s.begin()" % name) in a[1] and (kv in a[1] or self.p_max in a[1]):
+                    good.append(n)
+            avoid = good
+            unordered_path = view.path_exists_entry_to(em[0], avoiding=avoid) if good else True
+            only_part = [self.w(n) for n, x in getattr(self, "_partcalls", [])]
+            chk.ob("R12.4", "match::every-emitted-group-is-ordered", not unordered_path, self.w(em[0]),
+                   "every path to the emission loop passes an ordering call over the entries that are emitted%s"
+                   % ("" if not unordered_path else " -- some path reaches the emission without one" + ((" (only a partition: %s)" % ", ".join(only_part)) if only_part else "")))
 
     # ------------------------------------------------------------------
     def emit_rule(self):
@@ -823,3 +855,74 @@ def quadtree_rule(chk):
                 chk.ob("R12.9", nm + "::expansion-recognised", None, where, "neither the four-way recursion nor a closed-form leaf loop was recognised")
         else:
             chk.ob("R12.9", nm + "::expansion-recognised", None, where, "the four sub-triangle tests were not found")
+
+
+def fill_children_rules(chk, rule="R12.9"):
+    """R12.9 (continued): when a stored node lies wholly inside the circle, SpatialConvex::fillChildren hands over all its leaf
+    descendants.  Two structural necessary conditions: (a) what is handed over are HTM triangle ids (the `id_` member of the node
+    record), never positions in the node array, which is what the parameter and the `childID_` entries are; (b) a node that has
+    stored children is expanded through all four of them, so a node is treated as a leaf only when its first child slot is empty."""
+    decls = cfront.load_tu("spatialconvex")
+    fs = cfront.functions(decls)
+    fn = fs.get("SpatialConvex::fillChildren")
+    where = "esutil/htm/htm_src/SpatialConvex.cpp"
+    if fn is None:
+        chk.ob(rule, "fillChildren::present", None, where, "function not found")
+        return
+    chk.analysed_unit("SpatialConvex.cpp:SpatialConvex::fillChildren")
+    par = cfront.params_of(fn)[0]
+    g = cfront.CCFG(fn)
+    v = g.view()
+    idexpr = "index_->nodes_.vector_[%s].id_" % par
+    child0 = "index_->nodes_.vector_[%s].childID_[0]" % par
+    handed = []      # (node, callee, rendered id argument)
+    recur = []
+    for n in g.nodes:
+        if not isinstance(n.c, dict):
+            continue
+        for x in walk(n.c):
+            if x.get("kind") in ("CallExpr", "CXXMemberCallExpr"):
+                cn = callee_name(x)
+                a = cfront.call_args(x)
+                if cn == "append" and a:
+                    handed.append((n, cn, render(a[0])))
+                elif cn == "setfull" and a:
+                    handed.append((n, cn, render(a[0])))
+                elif cn == "leafNumberById" and a:
+                    handed.append((n, cn, render(a[0])))
+                elif cn == "fillChildren" and a:
+                    recur.append((n, render(a[0])))
+    if not handed:
+        chk.ob(rule, "fillChildren::hands-over-triangle-ids", None, where, "no append / setfull / leafNumberById call recognised")
+        return
+    bad = [(cn, t) for n, cn, t in handed if t != idexpr]
+    chk.ob(rule, "fillChildren::hands-over-triangle-ids", not bad, "%s:%s" % (where, fn.get("line", "?")),
+           "every id handed to the result lists is the node's HTM id `N(%s).id_`, not its position in the node array%s"
+           % (par, "" if not bad else " -- found %s" % bad[:3]))
+    # (b) leaf actions only for nodes without stored children; nodes with stored children recurse into all four
+    leafacts = []
+    for n, cn, t in handed:
+        ts = [(render(b.c).replace(" ", ""), lab) for b, lab in v.controlling_branches(n) if b.kind == "branch"]
+        in_range_arm = ("range_", "T") in ts
+        if in_range_arm:
+            continue
+        haschild = None
+        for t_, lab in ts:
+            if t_ in ("(%s!=0)" % child0.replace(" ", ""), child0.replace(" ", "")):
+                haschild = (lab == "T")
+            if t_ in ("(%s==0)" % child0.replace(" ", ""), "!" + child0.replace(" ", "")):
+                haschild = (lab != "T")
+        leafacts.append((n, cn, haschild))
+    okb = bool(leafacts) and all(h is False for _, _, h in leafacts)
+    chk.ob(rule, "fillChildren::leaf-action-only-without-stored-children", okb if leafacts else None, "%s:%s" % (where, fn.get("line", "?")),
+           "a node is expanded by id (setfull) or recorded as a leaf only when it has no stored children (first child slot empty); nodes with stored "
+           "children must be expanded through them%s" % ("" if okb else " -- not controlled by the stored-children test: %s" % [(cn, h) for _, cn, h in leafacts if h is not False][:3]))
+    okr = False
+    for n, t in recur:
+        lp = [b for b, lab in v.controlling_branches(n) if b.kind == "loop" and lab == "T"]
+        ts = [(render(b.c).replace(" ", ""), lab) for b, lab in v.controlling_branches(n) if b.kind == "branch"]
+        if lp and render(lp[0].c).replace(" ", "").endswith("<4)") and t.replace(" ", "") == ("index_->nodes_.vector_[%s].childID_[%s]" % (par, render(lp[0].c["inner"][0]))).replace(" ", "") \
+                and ("(%s!=0)" % child0.replace(" ", ""), "T") in ts:
+            okr = True
+    chk.ob(rule, "fillChildren::recurses-into-all-four-stored-children", okr if recur else None, "%s:%s" % (where, fn.get("line", "?")),
+           "a node with stored children recurses into childID_[0..3]")
